@@ -1285,7 +1285,7 @@ def inject_program(stmt_lines, seg, start_mode, in_child, faulty_first):
     return lines
 
 
-def build_inject_src(body_lines, start_mode, in_child, faulty_first, with_waiter=False):
+def build_inject_src(body_lines, start_mode, in_child, faulty_first, with_waiter=False, acting=True):
     ind = lambda ls: "\n".join("  " + l for l in ls)
     flows = []
     flows.append("flow child $p\n  match NeverC()")
@@ -1305,8 +1305,11 @@ def build_inject_src(body_lines, start_mode, in_child, faulty_first, with_waiter
                      f"  match Go()\n  $m_{name}_go = True\n  match X()\n  $m_{name}_x = True\n  match Y()\n  $m_{name}_y = True\n"
                      f"  match W()\n  $m_{name}_w = True\n  match Z()\n  $m_{name}_z = True")
     # a bystander in its own interaction loop that ACTS in the same processing cycle
-    flows.append('@loop("b3")\nflow other3\n  match Go()\n  send B3Go()\n  match X()\n  send B3X()\n  match Y()\n  send B3Y()\n'
-                 "  match W()\n  send B3W()\n  match Z()\n  send B3Z()")
+    if acting:
+        flows.append('@loop("b3")\nflow other3\n  match Go()\n  send B3Go()\n  match X()\n  send B3X()\n  match Y()\n  send B3Y()\n'
+                     "  match W()\n  send B3W()\n  match Z()\n  send B3Z()")
+    else:   # the faulty flow owns the only actionable head of its processing step
+        flows.append("flow other3\n  match NeverB3()")
     flows.append("flow sup\n  global $m_sup\n  match ColangError()\n  $m_sup = True")
     main = ["start other"] + (["start launcher"] if faulty_first else ["start other3"]) + ["start sup"] + \
            (["start other3"] if faulty_first else ["start launcher"]) + ["start other2", "match Never()"]
@@ -1327,6 +1330,8 @@ def gen_inject_cases(rng, limit, hist):
                                 lines = [t.replace("{X}", bx) for t in tmpl]
                                 body = inject_program(lines, seg, start_mode, in_child, faulty_first)
                                 all_cases.append((name, site, bk) + ctx + (body,))
+                                if site == "action-event":
+                                    all_cases.append((name + "-alone", site, bk) + ctx + (body,))
                         for name, site, tmpl in MATCH_STMTS:
                             kinds = ["cmp"] if name == "match-cmp" else (["ref"] if site == "match-reference" else list(BAD))
                             for bk in kinds:
@@ -1356,7 +1361,7 @@ def gen_inject_cases(rng, limit, hist):
     chosen = (chosen + rest)[:limit] if limit else chosen + rest
     cases = []
     for n, (name, site, bk, seg, start_mode, in_child, faulty_first, with_waiter, body) in enumerate(chosen):
-        src = build_inject_src(body, start_mode, in_child, faulty_first, with_waiter)
+        src = build_inject_src(body, start_mode, in_child, faulty_first, with_waiter, acting=not name.endswith("-alone"))
         events = ["Go", {"type": "X", "p": "abc"}, {"type": "Y", "p": "abc"}, {"type": "W", "p": "abc"}, "Z", "Q"]
         cases.append({"id": f"inj{n}", "kind": "inject", "src": src, "events": events,
                       "meta": {"stmt": name, "site": site, "bad": bk, "segment": seg, "start": start_mode,
@@ -1501,7 +1506,7 @@ def inject_verdict(case, r):
                 bad.append((what, f"flow `{name}` did not react to event {ev.upper()}"))
                 break
     # the bystander of the other interaction loop must have ACTED on every event
-    for k, ev in enumerate(order):
+    for k, ev in enumerate(order if not case["meta"]["stmt"].endswith("-alone") else []):
         outs = r["events"][k + 1].get("out", []) if k + 1 < len(r["events"]) else []
         if "B3" + ev.capitalize() not in outs and "B3" + ev.upper() not in outs:
             what = "acting-bystander-misses-same-event" if ev == same else "acting-bystander-misses-later-event"
